@@ -418,6 +418,8 @@ pub struct SimState {
     park_calls: u64,
     pub fs_node: Option<u32>,
     pub pause_node: u32,
+    /// pause sites that only the scenarios naming them stop at (other scenarios' schedules stay as they were)
+    pub opt_in_pause_sites: Vec<&'static str>,
     pub completed: bool,
     pub nontrivial: bool,
     pub extra: BTreeMap<String, serde_json::Value>,
@@ -464,6 +466,7 @@ pub fn install(wtape: Tape, stape: Tape, keep_log: bool) {
         park_calls: 0,
         fs_node: None,
         pause_node: 0,
+        opt_in_pause_sites: Vec::new(),
         completed: false,
         nontrivial: false,
         extra: BTreeMap::new(),
@@ -609,6 +612,11 @@ pub fn set_fs_node(node: u32) {
 }
 pub fn set_pause_node(node: u32) {
     with(|st| st.pause_node = node);
+}
+/// Sites listed in OPT_IN_PAUSE_SITES are scheduling points only after the scenario asked for them.
+pub const OPT_IN_PAUSE_SITES: &[&str] = &["query.before_plan"];
+pub fn enable_pause_site(site: &'static str) {
+    with(|st| st.opt_in_pause_sites.push(site));
 }
 
 /// Kill a node: every gate / file operation of its current incarnation never completes.
@@ -1057,6 +1065,9 @@ pub fn install_pause_hook() {
     cardinalsin::verif_hooks::PAUSE_HOOK.with(|h| {
         *h.borrow_mut() = Some(Box::new(|site: &'static str| {
             let (node, i) = with(|st| (st.pause_node, st.inc[st.pause_node as usize]));
+            if OPT_IN_PAUSE_SITES.contains(&site) && !with(|st| st.opt_in_pause_sites.contains(&site)) {
+                return Box::pin(async {});
+            }
             Box::pin(async move {
                 gate(node, i, GateClass::Pause, format!("PAUSE {site}")).await;
             })
